@@ -125,11 +125,28 @@ def f10_special_alias(xcp, d):
             bad.append("%s: source FIFO gone after `xcp ./p p` (exit %d)" % (drv, rc))
     return bad
 
+def f11_gitignore_fifo(xcp, d):
+    """C07/C14: --gitignore with a FIFO named .gitignore at the source root must not block"""
+    bad = []
+    for drv in ("parfile", "parblock"):
+        w = os.path.join(d, drv); os.makedirs(os.path.join(w, "src"))
+        open(os.path.join(w, "src", "a.txt"), "w").write("x\n")
+        os.mkfifo(os.path.join(w, "src", ".gitignore"))
+        try:
+            p = subprocess.run([xcp, "-r", "--gitignore", "--driver", drv, "src", "dst"], cwd=w, env=dict(os.environ, RUST_BACKTRACE="0"),
+                               capture_output=True, text=True, timeout=10)
+            if p.returncode != 0 or not os.path.exists(os.path.join(w, "dst", "a.txt")):
+                bad.append("%s: exit %d, a.txt copied: %s" % (drv, p.returncode, os.path.exists(os.path.join(w, "dst", "a.txt"))))
+        except subprocess.TimeoutExpired:
+            bad.append("%s: still running after 10 s (blocked opening the FIFO)" % drv)
+    return bad
+
 ALL = {"new:create-before-identity-check": f1_self_copy, "parfile:symlink-result-discarded": f2_symlink_result,
        "copy_node:dev-not-rdev": f3_device_number, "parblock:short-copy-not-retried": f5_short_copy,
        "walker:deref-does-not-follow-dir-links": f8_deref_dir_link, "finalise:chown-after-chmod": f9_setid_ownership,
        "backup:prefix-match": f4b_prefix, "backup:non-utf8-unrecognised": f4a_non_utf8,
-       "worker-special:alias-removed": f10_special_alias}
+       "worker-special:alias-removed": f10_special_alias,
+       "walker:gitignore-fifo-opened": f11_gitignore_fifo}
 
 def main():
     repo = sys.argv[1]
